@@ -375,6 +375,14 @@ func poolable(o object.PanObject) bool {
 	return len(o.Inspect()) <= 2048
 }
 
+// c06Line is one evaluated line of a history (used by C08 to replay histories under
+// other hash-map iteration orders).
+type c06Line struct {
+	Src    string
+	Plan   map[int]harness.Ret
+	Result string
+}
+
 func (c *c06Check) Run(seed, run uint64, rec []uint32, st Stats, only *Viol) []Viol {
 	s := st.(*C06Stats)
 	var t *tape.Tape
@@ -383,6 +391,10 @@ func (c *c06Check) Run(seed, run uint64, rec []uint32, st Stats, only *Viol) []V
 	} else {
 		t = tape.New(seed^hashID("C06"), run)
 	}
+	return c.runHist(seed, run, t, s, nil)
+}
+
+func (c *c06Check) runHist(seed, run uint64, t *tape.Tape, s *C06Stats, lines *[]c06Line) []Viol {
 	s.Histories++
 	env := object.NewEnclosedEnv(c.it.Global)
 	type entry struct {
@@ -436,8 +448,12 @@ func (c *c06Check) Run(seed, run uint64, rec []uint32, st Stats, only *Viol) []V
 		src := c06Seeds[t.Intn(len(c06Seeds))]
 		r, ok := evalLine(src, nil)
 		if ok && r.Err == nil && r.Panic == "" && r.Obj != nil {
+			before := len(pool)
 			add(src, r.Obj)
 			log = append(log, fmt.Sprintf("v%d := %s", len(pool)-1, src))
+			if lines != nil && len(pool) > before {
+				*lines = append(*lines, c06Line{Src: fmt.Sprintf("v%d := %s", before, src), Result: describeResult(r)})
+			}
 		}
 	}
 	if len(pool) == 0 {
@@ -657,8 +673,16 @@ func (c *c06Check) Run(seed, run uint64, rec []uint32, st Stats, only *Viol) []V
 					Actual:    map[string]interface{}{"fingerprint_after": clipStr(now, 1200), "step_result": describeResult(r)}}}
 			}
 		}
+		before := len(pool)
 		if r.Err == nil && r.Panic == "" && r.Obj != nil && len(pool) < 28 {
 			add(src, r.Obj)
+		}
+		if lines != nil {
+			l := c06Line{Src: src, Plan: plan, Result: describeResult(r)}
+			if len(pool) > before {
+				l.Src = fmt.Sprintf("v%d := %s", before, src)
+			}
+			*lines = append(*lines, l)
 		}
 	}
 	if len(s.Samples) < 2 {
